@@ -332,6 +332,16 @@ impl QVisitor for PathV<'_> {
                             per_handle.push(a);
                         }
                     }
+                    // iterating the prepared view visits exactly the entities the prepared query visits
+                    {
+                        let mut a: Vec<u64> = pq.view_mut(w).iter_mut().map(|(e, _)| -> u64 { e.to_bits().into() }).collect();
+                        let mut b: Vec<u64> = pq.query_mut(w).map(|(e, _)| -> u64 { e.to_bits().into() }).collect();
+                        a.sort();
+                        b.sort();
+                        if a != b {
+                            self.flags.push(format!("C08/C17: PreparedView::iter_mut visits {} entities, PreparedQuery::query_mut {}", a.len(), b.len()));
+                        }
+                    }
                     // what the prepared view hands out must be what a direct lookup hands out
                     for (k, h) in self.handles.iter().enumerate() {
                         if per_handle[k][0] == 1 {
